@@ -252,8 +252,9 @@ def run(model: RepoModel, rep, tier: str):
                 if isinstance(p, ast.UnaryOp) and isinstance(p.op, ast.USub):
                     producer_nonneg = False
     rep.analysed["SYMBOL_IS_USED producers"] = n_prod
+    seen_lookup: List[str] = []
     for name, f in sorted(ap.methods.items()):
-        for n in walk_no_nested(f.node):
+        for n in sorted((x for x in walk_no_nested(f.node) if isinstance(x, ast.Assign)), key=lambda x: x.lineno):
             if isinstance(n, ast.Assign) and isinstance(n.value, ast.Call) and (call_name(n.value) or "").endswith(getter.name):
                 tg = n.targets[0]
                 first = tg.elts[0].id if isinstance(tg, ast.Tuple) and isinstance(tg.elts[0], ast.Name) else ""
@@ -265,8 +266,31 @@ def run(model: RepoModel, rep, tier: str):
                                any(isinstance(x, ast.Name) and x.id == first for x in ast.walk(t.test)) and
                                any(isinstance(s, ast.Return) and is_const(s.value, False) for s in t.body) for t in walk_no_nested(f.node))
                 key = f"{TA}::TaintRuleApplier.{name}::callee lookup position"
+                n_lookup = sum(1 for k_ in seen_lookup if k_ == key)
+                seen_lookup.append(key)
+                if n_lookup:
+                    key += f" #{n_lookup + 1}"
+                # is what the lookup returns read afterwards (names built from the states, rules matched against them)?
+                result_read = [x for x in walk_no_nested(f.node) if isinstance(x, ast.Name) and isinstance(x.ctx, ast.Load) and x.id in (first, second)
+                               and x.id != "_" and x.lineno > n.lineno]
+                # a lookup behind contradictory conditions (`op in [.., "call_stmt", ..]` returned earlier, then `op == "call_stmt"`) never runs
+                fcfg = cfg_of(f.node)
+                conds = fcfg.conditions_at(fcfg.node(n)) if id(n) in fcfg.node_of else []
+                eq_true = {(norm(a.left), const_str(a.comparators[0])) for a, t in conds if t and isinstance(a, ast.Compare) and len(a.ops) == 1
+                           and isinstance(a.ops[0], ast.Eq) and const_str(a.comparators[0]) is not None}
+                dead = any((not t) and isinstance(a, ast.Compare) and len(a.ops) == 1 and isinstance(a.ops[0], ast.In)
+                           and isinstance(a.comparators[0], (ast.List, ast.Tuple, ast.Set))
+                           and any((norm(a.left), const_str(e)) in eq_true for e in a.comparators[0].elts) for a, t in conds)
                 if not neg:
                     rep.holds("C10.R4", key, TA, n.lineno, f"looks the callee up at position {norm(p) if p is not None else 'default'}")
+                elif dead:
+                    rep.info("C10.R4", key, TA, n.lineno, f"{name}: this lookup sits behind conditions that exclude each other; it never runs")
+                elif producer_nonneg and result_read:
+                    rep.violation("C10.R4", key, TA, n.lineno,
+                                  f"{name} asks for the used symbol at position -1 and then matches rules against the states it gets back "
+                                  f"(line {result_read[0].lineno}), but every producer of SYMBOL_IS_USED edges labels uses with enumerate() indices "
+                                  f">= 0: the lookup is always empty, so the callee is only ever known by the text in the statement -- a method "
+                                  f"called on a field (`self.queue.add(x)`) or a function called through a variable never matches its rule")
                 elif producer_nonneg and gives_up:
                     rep.violation("C10.R4", key, TA, n.lineno,
                                   f"{name} asks for the used symbol at position -1 and returns False when there is none, but every producer "
@@ -373,6 +397,11 @@ def run(model: RepoModel, rep, tier: str):
     check_summary_accumulates(model, rep, "C10.R6")
     from .c07 import _r4_keyword_order
     _r4_keyword_order(model, rep, "C10.R8")
+    from ..generic2 import check_index_partitions
+    rep.rule("C10.R9", "argument binding covers every position exactly once: the positional loop over [0, common_len), the loop over the remaining "
+                        "positional parameters and the tail slice of the remaining positional arguments continue exactly where the first loop stopped, "
+                        "so the parameter in between receives no argument state and no argument-to-parameter flow edge", 2)
+    check_index_partitions(model, rep, "C10.R9", ["core/stmt_states.py"])
 
 
 def check_summary_accumulates(model: RepoModel, rep, RID: str, declare: bool = False):
